@@ -1094,6 +1094,7 @@ def _chain_member_exception(m, ts, handles, f, fld, p):
     pids = dict((prm[3], prm[0]) for prm in fn.params)
     owner = p.split('->')[0]
     search = False
+    search_nodes = []
     for node in g.nodes:
         if node.kind != 'br':
             continue
@@ -1105,8 +1106,38 @@ def _chain_member_exception(m, ts, handles, f, fld, p):
                     org = an.origins(f, node.id, u.ref)
                     if org and org <= set([head]):
                         search = True
+                        search_nodes.append((node.id, u.ref))
     if not search:
         return (False, 'no identity search of the chain in %s' % f)
+    # the identity search is COMPLETE: the walk that contains it ends only at the end of the chain or when the entry is
+    # found - a walk that can also stop for another reason (first entry with the same node id ...) misses an entry
+    # that is linked behind that point, and its action keeps running
+    for (snid, cref) in search_nodes:
+        lps = [lp for lp in g.loops if snid in lp.nodes or snid in lp.cond_nodes]
+        if not lps:
+            continue
+        lp = min(lps, key=lambda l: len(l.nodes))
+        for nid_ in lp.nodes:
+            nd_ = g.nodes[nid_]
+            for (t_, lab_) in nd_.succ:
+                if t_ in lp.nodes or t_ == lp.head:
+                    continue
+                ok_exit = False
+                if nd_.kind == 'br' and nd_.x is not None:
+                    bx = strip(nd_.x)
+                    if nid_ == snid:
+                        ok_exit = True
+                    elif bx.k == 'bin' and bx.op in ('==', '!='):
+                        a_, b_ = strip(bx.kids[0]), strip(bx.kids[1])
+                        for (u_, v_) in ((a_, b_), (b_, a_)):
+                            if u_.k == 'ref' and u_.ref == cref and const_eval(v_) == 0:
+                                ok_exit = True
+                    elif bx.k == 'ref' and bx.ref == cref:
+                        ok_exit = True
+                if not ok_exit:
+                    return (False, 'the walk that looks %s up by identity can end early at line %d (%s) before the whole chain was '
+                                   'visited: an entry linked behind that point is not found and its action keeps running'
+                                   % (owner, nd_.line, show(nd_.x) if nd_.x is not None else nd_.kind))
     res = ts.analyse(f)
     if not any(d[1] == p for d in res.deletes):
         return (False, 'no delete of %s in %s' % (p, f))
